@@ -25,13 +25,24 @@ SRC_SCALA_CALL = 'hail/hail/src/is/hail/variant/Call.scala'
 SRC_SCALA_GT = 'hail/hail/src/is/hail/variant/Genotype.scala'
 SRC_RICHBOOL = 'hail/hail/utils/src/is/hail/utils/implicits/RichBoolean.scala'
 COQ_PROPS = 'theories/CallPacking/Props_C34.v'
-READY = False
+READY = True
 META = dict(
     design_ref='§5.F C34',
     technique='Coq proofs about Gallina definitions regenerated on every run from the Scala source text (fail-closed expression '
               'translator with explicit 32-bit wrap-around) and from the Python AST; integer square root via Z.sqrt',
-    level_text='',
-    level_note='',
+    level_text='Machine-checked (Coq 8.16, closed under the global context), about definitions regenerated on every run from the current '
+               'sources: for EVERY call with ploidy 0-2, alleles >= 0 (unphased diploid normalised as hail.genetics.Call does) and allele '
+               'representation < 2^29 (the engine\'s bound; diploid representation k(k+1)/2 + j with k = a0 + a1 when phased): '
+               '_tcall._convert_to_encoding produces exactly the int32 word that Call0/Call1/Call2.apply produce (bits phased | ploidy<<1 | '
+               'repr<<3, with 32-bit wrap-around made explicit); _convert_from_encoding and the engine accessors (ploidy, isPhased, alleleRepr, '
+               'allelePair, AllelePair.j/k) recover the call from that word; Genotype.diploidGtIndex / allelePair (cached table and sqrt branch) '
+               'and their Python counterparts are mutually inverse bijections between indices below 2^29 and pairs j <= k, strictly monotone '
+               'for the VCF order k(k+1)/2 + j.',
+    level_note='Partial: the Scala sources are MODELLED from their text by my translator and never executed (no Scala toolchain); the two '
+               '`match` dispatches CallN.apply and Call.alleles are hand-modelled; the model\'s 32-bit primitives are validated against the JVM '
+               '(java) on operand pairs. The float sqrt step of both implementations is replaced by exact integer square root: checked against the '
+               'Python floats (all triangular boundaries in quick, every index below 2^29 in thorough), assumed for the JVM. Beyond the bound both '
+               'sides misbehave silently (Python: Call([2^29]) encodes as Call([0]); engine model: Call2(0, 65536) wraps) - outside the statement.',
     partial=True,
 )
 TRUSTED = ['harness/translate/c34_monadic.py: Scala def-body parser/translator (Int = 32-bit two\'s complement, exceptions = None, '
@@ -187,9 +198,328 @@ End Py.
     ctx.write_generated('Gen.v', text)
 
 
+# ------------------------------------------------------------------------------------------------
+# cases
+
+LIM = 1 << 29
+
+
+def tri(k):
+    return k * (k + 1) // 2
+
+
+def ref_repr(c):
+    al, ph = c
+    if len(al) == 0:
+        return 0
+    if len(al) == 1:
+        return al[0]
+    a0, a1 = al
+    return tri(a0 + a1) + a0 if ph else tri(a1) + a0
+
+
+def is_valid(c):
+    al, ph = c
+    if len(al) > 2 or any(a < 0 for a in al):
+        return False
+    if len(al) == 2 and not ph and al[0] > al[1]:
+        return False
+    return ref_repr(c) < LIM
+
+
+def ref_word(c):
+    """the engine's documented layout, computed independently of model and implementation"""
+    al, ph = c
+    w = (1 if ph else 0) | (len(al) << 1) | (ref_repr(c) << 3)
+    return w - (1 << 32) if w >= (1 << 31) else w
+
+
+def _valid_calls(ctx, n):
+    rng = ctx.rng
+    out = [([], False), ([], True)]
+    edge1 = [0, 1, 2, 7, 255, 65535, 65536, (1 << 28) - 1, 1 << 28, (1 << 28) + 1, LIM - 2, LIM - 1]
+    for a in edge1:
+        out += [([a], False), ([a], True)]
+    # diploid: rows around the cached table (k <= 7), 16-bit boundaries, and the last representable row
+    for k in [0, 1, 2, 7, 8, 9, 100, 255, 256, 4095, 23169, 23170, 23171, 32766, 32767]:
+        for j in sorted({0, 1, k // 2, max(0, k - 1), k}):
+            if j <= k and tri(k) + j < LIM:
+                out.append(([j, k], False))
+                if tri(k) + j < LIM:
+                    out.append(([j, k - j], True))       # phased (a0, a1) with a0 + a1 = k
+                    out.append(([k - j, j], True))
+    out.append(([16383, 32767], False))                   # the largest representable unphased diploid call
+    while len(out) < n:
+        t = rng.random()
+        if t < 0.2:
+            out.append(([rng.choice([rng.randrange(0, 100), rng.randrange(0, LIM)])], rng.random() < 0.5))
+        else:
+            k = rng.choice([rng.randrange(0, 12), rng.randrange(0, 400), rng.randrange(0, 32768)])
+            j = rng.randrange(0, k + 1)
+            if tri(k) + j >= LIM:
+                continue
+            if rng.random() < 0.5:
+                out.append(([j, k], False))
+            else:
+                out.append(([j, k - j], True))
+    return [c for c in out if is_valid(c)]
+
+
+def _invalid_calls(ctx, n):
+    rng = ctx.rng
+    out = [([LIM], False), ([LIM + 5], True), ([16384, 32767], False), ([0, 32768], False), ([32767, 1], True), ([0, 65535], False),
+           ([0, 65536], False), ([70000, 70000], True), ([-1], False), ([-1, 3], True), ([1 << 31], False), ([1 << 32], True)]
+    while len(out) < n:
+        k = rng.randrange(32768, 140000)
+        j = rng.randrange(0, k + 1)
+        out.append(([j, k], False) if rng.random() < 0.5 else ([j, k - j], True))
+    return out
+
+
+def _coq_call(c):
+    al, ph = c
+    return f'({listlit([zlit(a) for a in al])}, {"true" if ph else "false"})'
+
+
+HEADER = ('From HailV Require Import Common.Prelude CallPacking.Model.\nFrom HailG Require Import C34.Gen.\n'
+          'From HailV Require CallPacking.Lemmas.\nOpen Scope Z_scope.')
+HEADER_NOLEMMAS = ('From HailV Require Import Common.Prelude CallPacking.Model.\nFrom HailG Require Import C34.Gen.\nOpen Scope Z_scope.')
+
+# engine dispatch (same text as CallPacking/Lemmas.v, repeated here so that the comparison still runs when a proof is broken)
+ENGINE_DEFS = r"""
+Definition engine_pack (c : pycall) : option Z :=
+  match c with ([], ph) => Scala.Call0_apply ph | ([a], ph) => Scala.Call1_apply a ph | ([a0; a1], ph) => Scala.Call2_apply a0 a1 ph | _ => None end.
+Definition engine_unpack (w : Z) : option pycall :=
+  bind (Scala.Call_ploidy w) (fun pl => bind (Scala.Call_isPhased w) (fun ph =>
+    if pl =? 0 then Some ([], ph) else if pl =? 1 then bind (Scala.Call_alleleRepr w) (fun a => Some ([a], ph))
+    else if pl =? 2 then bind (Scala.Call_allelePair w) (fun p => bind (Scala.AllelePair_j p) (fun j => bind (Scala.AllelePair_k p) (fun k => Some ([j; k], ph))))
+    else None)).
+"""
+
+
+def _opt(v):
+    """model value: None | ('Some', x) -> x or 'error'"""
+    if v is None:
+        return 'error'
+    if isinstance(v, tuple) and v and v[0] == 'Some':
+        return v[1]
+    return v
+
+
+def _norm_call(v):
+    if v == 'error':
+        return v
+    al, ph = v
+    return [list(al), bool(ph)]
+
+
+def _impl_err(v):
+    return 'error' if isinstance(v, str) and v.startswith('error:') else v
+
+
+JAVA_SRC = """
+import java.util.*;
+public class P { public static void main(String[] z) { Scanner s = new Scanner(System.in); StringBuilder o = new StringBuilder();
+  while (s.hasNextInt()) { int a = s.nextInt(); int b = s.nextInt();
+    o.append(a + b).append(' ').append(a - b).append(' ').append(a * b).append(' ').append(b != 0 ? String.valueOf(a / b) : "E").append(' ')
+     .append(a << b).append(' ').append(a >> b).append(' ').append(a >>> b).append(' ').append(a & b).append(' ').append(a | b).append(' ')
+     .append(a ^ b).append(' ').append(-a).append('\\n'); }
+  System.out.print(o); } }
+"""
+
+
+def _jvm_primitives(ctx, n):
+    """The 32-bit primitives of Model.v against the JVM's int arithmetic (Scala Int = JVM int). Returns Corr."""
+    import shutil
+    import subprocess
+    if not shutil.which('java'):
+        ctx.notes.append('java not found: JVM check of the Int primitives skipped')
+        return Corr()
+    rng = ctx.rng
+    edges = [0, 1, -1, 2, 3, 7, 8, 16, 29, 31, 32, 33, 65535, 65536, (1 << 28), (1 << 29) - 1, (1 << 29), (1 << 31) - 1, -(1 << 31), -(1 << 31) + 1, 46341, 46340]
+    pairs = [(a, b) for a in edges for b in edges[:14]]
+    while len(pairs) < n:
+        pairs.append((rng.choice([rng.randrange(-(1 << 31), 1 << 31), rng.randrange(-70000, 70000)]),
+                      rng.choice([rng.randrange(-(1 << 31), 1 << 31), rng.randrange(-40, 70), rng.randrange(-70000, 70000)])))
+    src = os.path.join(ctx.work, 'P.java')
+    with open(src, 'w') as f:
+        f.write(JAVA_SRC)
+    p = subprocess.run(['timeout', '120', 'java', src], input='\n'.join(f'{a} {b}' for a, b in pairs), capture_output=True, text=True, cwd=ctx.work)
+    if p.returncode != 0:
+        ctx.notes.append('java run failed: JVM check of the Int primitives skipped: ' + p.stderr[-300:])
+        return Corr()
+    jv = [ln.split() for ln in p.stdout.strip().split('\n')]
+    exprs = [f'[Some (i_add {zlit(a)} {zlit(b)}); Some (i_sub {zlit(a)} {zlit(b)}); Some (i_mul {zlit(a)} {zlit(b)}); i_div {zlit(a)} {zlit(b)}; '
+             f'Some (i_shl {zlit(a)} {zlit(b)}); Some (i_shr {zlit(a)} {zlit(b)}); Some (i_ushr {zlit(a)} {zlit(b)}); Some (i_and {zlit(a)} {zlit(b)}); '
+             f'Some (i_or {zlit(a)} {zlit(b)}); Some (i_xor {zlit(a)} {zlit(b)}); Some (i_neg {zlit(a)})]' for a, b in pairs]
+    mv = coq_eval(ctx, HEADER_NOLEMMAS, exprs, shard=200, label='jvm')
+    dis = []
+    for (a, b), j, m in zip(pairs, jv, mv):
+        mm = ['E' if x is None else str(_opt(x)) for x in m]
+        if mm != j:
+            dis.append(Disagreement('Model.i_*~JVM int', {'kind': 'jvm', 'a': a, 'b': b}, mm, j))
+    return Corr(evaluations=len(pairs) * 11, distinct_nontrivial=len(set(pairs)),
+                rule='JVM: (a, b) operand pairs (edge grid + seeded random); + - * / << >> >>> & | ^ unary- of Model.v (vm_compute) vs the same '
+                     'operators on Java int executed by the JVM; non-trivial = distinct pairs',
+                samples=[{'a': pairs[-1][0], 'b': pairs[-1][1], 'jvm': jv[-1]}], disagreements=dis, names=['Model.i_*~JVM int'])
+
+
 def correspond(ctx):
-    return Corr()
+    corr = _jvm_primitives(ctx, ctx.scale(400, 4000))
+    valid = _valid_calls(ctx, ctx.scale(260, 3000))
+    invalid = _invalid_calls(ctx, ctx.scale(40, 400))
+    calls = valid + invalid
+    unnorm = [([a1, a0], False) for (al, ph) in valid[:60] if len(al) == 2 and not ph for a0, a1 in [al]] + [([1, 2, 3], False), ([1, 2, 3], True)]
+    rng = ctx.rng
+    ints = [ref_word(c) for c in valid] + [rng.randrange(-(1 << 31), 1 << 31) for _ in range(ctx.scale(60, 600))] + [6, 7, 14, 15, -1, -2, 0x7FFFFFFF, -(1 << 31)]
+    sq = sorted({tri(k) + d for k in [8, 9, 10, 255, 256, 4095, 4096, 23170, 32766, 32767] for d in (-1, 0, 1, k) if 36 <= tri(k) + d < LIM} |
+                {rng.randrange(36, LIM) for _ in range(ctx.scale(40, 400))} | {36, LIM - 1})
+    gtc = [c for c in calls if len(c[0]) == 2 and not c[1] and c[0][0] <= c[0][1] and c[0][1] < (1 << 26)][:ctx.scale(80, 800)] + [([1], False), ([1, 2], True), ([], False)]
+    res = ctx.run_impl('c34_calls.py', {'ops': [{'op': 'encode', 'calls': calls}, {'op': 'decode', 'ints': ints}, {'op': 'sqrt', 'is': sq},
+                                                 {'op': 'gtindex', 'calls': gtc}, {'op': 'init', 'calls': unnorm + calls[:40]}]})['results']
+    enc_i, dec_i, sq_i, gt_i, init_i = res
+    exprs = ([f'Py.convert_to_encoding {_coq_call(c)}' for c in calls] + [f'Py.convert_from_encoding {zlit(v)}' for v in ints] +
+             [f'Py.allele_pair_sqrt {zlit(i)}' for i in sq] + [f'Py.unphased_diploid_gt_index {_coq_call(c)}' for c in gtc] +
+             [f'Py.Call_init {listlit([zlit(a) for a in c[0]])} {"true" if c[1] else "false"}' for c in unnorm + calls[:40]])
+    mv = coq_eval(ctx, HEADER_NOLEMMAS, exprs, shard=150, label='py')
+    dis = []
+    pos = 0
+    for c, iv in zip(calls, enc_i):
+        m = _opt(mv[pos]); pos += 1
+        if m != _impl_err(iv):
+            dis.append(Disagreement('Gen.Py.convert_to_encoding~_tcall._convert_to_encoding', {'kind': 'call', 'call': [c[0], c[1]]}, m, iv))
+    for v, iv in zip(ints, dec_i):
+        m = _norm_call(_opt(mv[pos])); pos += 1
+        if m != _impl_err(iv):
+            dis.append(Disagreement('Gen.Py.convert_from_encoding~_tcall._convert_from_encoding', {'kind': 'int', 'int': v}, m, iv))
+    for i, iv in zip(sq, sq_i):
+        m = _opt(mv[pos]); pos += 1
+        got = _impl_err(iv)
+        if (got if got == 'error' else got[2]) != m:
+            dis.append(Disagreement('Gen.Py.allele_pair_sqrt~allele_pair_sqrt', {'kind': 'sqrt', 'i': i}, m, iv))
+    for c, iv in zip(gtc, gt_i):
+        m = _opt(mv[pos]); pos += 1
+        got = _impl_err(iv)
+        if (got if got == 'error' else (got[1] if got[2] else 'non-integral')) != m:
+            dis.append(Disagreement('Gen.Py.unphased_diploid_gt_index~Call.unphased_diploid_gt_index', {'kind': 'gtindex', 'call': [c[0], c[1]]}, m, iv))
+    for c, iv in zip(unnorm + calls[:40], init_i):
+        m = _norm_call(_opt(mv[pos])); pos += 1
+        got = _impl_err(iv)
+        if (got if got == 'error' else [got[0], got[1]]) != m:
+            dis.append(Disagreement('Gen.Py.Call_init~hail.genetics.Call.__init__', {'kind': 'init', 'call': [c[0], c[1]]}, m, iv))
+    corr.merge(Corr(evaluations=len(exprs), distinct_nontrivial=len({str(c) for c in calls if len(c[0]) == 2}) + len(set(ints)) + len(sq),
+                    rule='Python smoke test: (call | int32 word | genotype index) inputs, valid edge grid + seeded random + calls beyond the engine bound; '
+                         'non-trivial = diploid calls, distinct words, sqrt indices; generated Gallina (vm_compute) vs the real tcall / Call methods under the loader',
+                    samples=[{'call': [calls[5][0], calls[5][1]], 'word': enc_i[5]}, {'word': ints[3], 'call': dec_i[3]}],
+                    disagreements=dis, histograms={'ploidy': {str(k): sum(1 for c in calls if len(c[0]) == k) for k in (0, 1, 2)},
+                                                   'phased': {str(b): sum(1 for c in calls if c[1] == b) for b in (True, False)}},
+                    names=['Gen.Py.convert_to_encoding~_tcall._convert_to_encoding', 'Gen.Py.convert_from_encoding~_tcall._convert_from_encoding',
+                           'Gen.Py.allele_pair_sqrt~allele_pair_sqrt', 'Gen.Py.unphased_diploid_gt_index~Call.unphased_diploid_gt_index',
+                           'Gen.Py.Call_init~hail.genetics.Call.__init__']))
+    corr.exhaustive = False
+    return corr
 
 
 def oracle(ctx, budget):
-    return [], {}
+    """The property on the IMPLEMENTATION: the real Python packs each valid call into the engine's documented word layout and unpacks it
+    back; index <-> pair is the VCF order; the float sqrt agrees with integer arithmetic. The Scala side cannot be executed: the words of the
+    engine MODEL regenerated from Call.scala are compared with the real Python's words as additional (labelled) evidence."""
+    valid = _valid_calls(ctx, ctx.scale(600, 6000) * budget)
+    rng = ctx.rng
+    idx = sorted({tri(k) + d for k in range(0, 32768, ctx.scale(257, 17)) for d in (-1, 0, 1) if 0 <= tri(k) + d < LIM} |
+                 {rng.randrange(0, LIM) for _ in range(ctx.scale(300, 3000) * budget)} | set(range(0, 60)) | {LIM - 1})
+    words_for_idx = [ref_word(([0], False)) * 0 + (((2 << 1) | (i << 3)) - ((1 << 32) if ((2 << 1) | (i << 3)) >= (1 << 31) else 0)) for i in idx]
+    ops = [{'op': 'encode', 'calls': valid}, {'op': 'decode', 'ints': [ref_word(c) for c in valid]}, {'op': 'decode', 'ints': words_for_idx},
+           {'op': 'sqrt_boundaries', 'kmax': 32767}]
+    if ctx.thorough:
+        ops.append({'op': 'sqrt_sweep', 'lo': 0, 'hi': LIM})
+    res = ctx.run_impl('c34_calls.py', {'ops': ops}, timeout=1500)['results']
+    enc, dec, dec_idx, sqb = res[:4]
+    fails = []
+    for c, e, d in zip(valid, enc, dec):
+        case = {'kind': 'call', 'call': [c[0], c[1]]}
+        shape = f'ploidy {len(c[0])}, {"phased" if c[1] else "unphased"}'
+        if isinstance(e, str):
+            fails.append(Failure(f'pack:raises:{shape}', f'_convert_to_encoding raised {e} for the representable call {c}', case, ref_word(c), e))
+        elif e != ref_word(c):
+            fails.append(Failure(f'pack:wrong-word:{shape}', f'_convert_to_encoding({c}) = {e}, the engine word is {ref_word(c)}', case, ref_word(c), e))
+        if d != [c[0], c[1]]:
+            fails.append(Failure(f'unpack:not-inverse:{shape}', f'_convert_from_encoding(engine word of {c}) = {d}', case, [c[0], c[1]], d))
+    gt_calls = []
+    for i, d in zip(idx, dec_idx):
+        case = {'kind': 'gt', 'i': i}
+        if isinstance(d, str) or d[1] is not False or len(d[0]) != 2:
+            fails.append(Failure('gtindex:decode-fails', f'genotype index {i} does not decode to an unphased pair: {d}', case, None, d))
+            continue
+        j, k = d[0]
+        if not (0 <= j <= k and tri(k) + j == i):
+            fails.append(Failure('gtindex:not-vcf-order', f'genotype index {i} decodes to ({j},{k}) but k(k+1)/2+j = {tri(k) + j}', case, i, d))
+        else:
+            gt_calls.append(([j, k], False, i))
+    gi = ctx.run_impl('c34_calls.py', {'ops': [{'op': 'gtindex', 'calls': [[c[0], c[1]] for c in gt_calls]}]})['results'][0]
+    for (al, ph, i), g in zip(gt_calls, gi):
+        if isinstance(g, str) or not g[2] or g[1] != i:
+            fails.append(Failure('gtindex:py-index-wrong', f'Call({al}).unphased_diploid_gt_index() = {g}, expected {i}', {'kind': 'gt', 'i': i}, i, g))
+    if sqb['bad']:
+        i0 = sqb['bad'][0]
+        fails.append(Failure('sqrt:float-mismatch', f'allele_pair_sqrt({i0[0]}) = {i0[2]}, integer arithmetic gives {i0[1]}', {'kind': 'sqrt', 'i': i0[0]}, i0[1], i0[2]))
+    n_sweep = 0
+    if ctx.thorough:
+        sw = res[4]
+        n_sweep = sw['n']
+        if sw['bad']:
+            fails.append(Failure('sqrt:float-mismatch', f'float row index wrong at i={sw["bad"][0]}', {'kind': 'sqrt', 'i': sw['bad'][0][0]}, None, sw['bad'][0]))
+    # engine MODEL (regenerated from the Scala text) against the real Python words
+    try:
+        sample = valid[: ctx.scale(250, 2500)]
+        exprs = [f'(engine_pack {_coq_call(c)}, bind (engine_pack {_coq_call(c)}) engine_unpack)' for c in sample]
+        mv = coq_eval(ctx, HEADER_NOLEMMAS + ENGINE_DEFS, exprs, shard=150, label='engine')
+        for c, e, m in zip(sample, enc, mv):
+            mp, mu = _opt(m[0]), _norm_call(_opt(m[1]))
+            case = {'kind': 'call', 'call': [c[0], c[1]]}
+            shape = f'ploidy {len(c[0])}, {"phased" if c[1] else "unphased"}'
+            if mp != e:
+                fails.append(Failure(f'engine-model:pack-differs:{shape}', f'the engine MODEL regenerated from Call.scala/Genotype.scala (not executed) packs {c} '
+                                     f'as {mp}, the real Python as {e}', case, mp, e))
+            elif mu != [c[0], c[1]]:
+                fails.append(Failure(f'engine-model:unpack-differs:{shape}', f'the engine MODEL regenerated from Call.scala/Genotype.scala (not executed) unpacks '
+                                     f'the word of {c} as {mu}', case, [c[0], c[1]], mu))
+    except Exception as ex:  # noqa: BLE001 - the generated file may not exist when the translator failed closed
+        ctx.notes.append(f'engine-model comparison not available: {str(ex)[:200]}')
+    stats = {'evaluations': 2 * len(valid) + len(idx) + len(gt_calls) + sqb['n'] + n_sweep,
+             'distinct_nontrivial': len({str(c) for c in valid if len(c[0]) == 2}) + len(idx),
+             'rule': 'oracle: real Python pack/unpack of representable calls vs the documented word layout (phased | ploidy<<1 | repr<<3, int32); '
+                     'index->pair->index in VCF order; allele_pair_sqrt at every triangular boundary below 2^29'
+                     + (' and the float expression at EVERY index below 2^29 (numpy sweep)' if ctx.thorough else '')
+                     + '; non-trivial = diploid calls + genotype indices',
+             'samples': [{'call': [valid[10][0], valid[10][1]], 'word': enc[10]}]}
+    if ctx.thorough and not fails:
+        stats['exhaustive_note'] = f'float sqrt row index verified for all {n_sweep} indices below 2^29'
+    return fails, stats
+
+
+def replay(ctx, doc):
+    case = doc.get('case') or {}
+    kind = case.get('kind')
+    if kind == 'call':
+        c = case['call']
+        r = ctx.run_impl('c34_calls.py', {'ops': [{'op': 'encode', 'calls': [c]}, {'op': 'init', 'calls': [c]}]})['results']
+        out = {'case': case, 'impl_word': r[0][0], 'impl_call': r[1][0], 'engine_word_by_layout': ref_word((c[0], c[1])) if is_valid((c[0], c[1])) else 'outside the engine range'}
+        if not isinstance(r[0][0], str):
+            out['impl_decode'] = ctx.run_impl('c34_calls.py', {'ops': [{'op': 'decode', 'ints': [r[0][0]]}]})['results'][0][0]
+        try:
+            m = coq_eval(ctx, HEADER_NOLEMMAS + ENGINE_DEFS, [f'(Py.convert_to_encoding {_coq_call((c[0], c[1]))}, engine_pack {_coq_call((c[0], c[1]))})'])[0]
+            out['model_py_word'], out['model_engine_word'] = _opt(m[0]), _opt(m[1])
+        except Exception as ex:  # noqa: BLE001
+            out['model'] = f'not available: {str(ex)[:200]}'
+        return out
+    if kind in ('gt', 'sqrt'):
+        i = case['i']
+        w = (2 << 1) | (i << 3)
+        w = w - (1 << 32) if w >= (1 << 31) else w
+        r = ctx.run_impl('c34_calls.py', {'ops': [{'op': 'decode', 'ints': [w]}, {'op': 'sqrt', 'is': [i]}]})['results']
+        return {'case': case, 'impl_decode': r[0][0], 'impl_allele_pair_sqrt': r[1][0]}
+    if kind == 'int':
+        r = ctx.run_impl('c34_calls.py', {'ops': [{'op': 'decode', 'ints': [case['int']]}]})['results']
+        return {'case': case, 'impl_decode': r[0][0]}
+    return {'case': case, 'note': 'no implementation-side replay for this kind'}
